@@ -339,7 +339,10 @@ def save_hdf5(h5path, indent, user_rate, user_name, user_comment, h5mode="a"):
         if idd in ana:
             # Only allow overriding of user data if fit matches.
             # Otherwise, the rating might be wrong.
-            if not np.allclose(indent["fit"], ana[idd]["fit"], equal_nan=True):
+            # (relative comparison only: the forces are of order 1e-9 N,
+            # far below the default absolute tolerance of `np.allclose`)
+            if not np.allclose(indent["fit"], ana[idd]["fit"], atol=0,
+                               equal_nan=True):
                 raise ValueError("Cannot store rating for different fit in "
                                  "same rating container!")
             out = ana[idd]
